@@ -65,6 +65,12 @@ class C11(PropCheck):
         for ch in run["checks"]:
             c[ch["c"]] = c.get(ch["c"], 0) + 1
 
+    def replay(self, payload):
+        # corpus files hold the bare case, replay files wrap it
+        if "case" not in payload and "kind" in payload:
+            payload = {"case": payload}
+        return super().replay(payload)
+
     def focused_search(self, rng, broken, budget):
         for _ in range(budget):
             yield c11_gen.gen_case(rng, "thorough")
